@@ -54,6 +54,10 @@ LINES = [
     ("lit_close_s_stmt", "&c!d' ; u{n} = 1"),
     ("lit_mid_s", "  &e!f;g &"),
     ("lit_close_s_dq_bang", "   &c''d!e' !! d{n}"),
+    # the literal is closed and a comment follows without any blank
+    ("lit_close_s_nb_comment", "   &cd'! c{n}"),
+    ("lit_close_s_nb_doc", "&cd'!! d{n}"),
+    ("lit_close_s_code_nb", "  &cd', {n}!c{n}"),
     ("lit_mid_s_dq", "  &e''f!!g &"),
     ("lit_open_d", "s{n} = \"a'b&"),
     ("lit_close_d_dq_bang", "   &c\"\"d!!e\" ! c{n}"),
@@ -301,7 +305,7 @@ def token_shard(args):
 
 # ---- space 3: literal masking in the parser (tree level) -----------------------
 LITS = ["'a'", "'long string here'", "''", "'it''s, here'", '"say ""hi"" = now"', '"x, y = 3"', "'q(1) = f(2)'",
-        "'!not;comment&'", '""', "'real :: z'", "'end module m'", "\"contains\"", "'call sub(1)'", "'Mixed CASE Text; CALL Sub(X)'"]
+        "'!not;comment&'", '""', "'real :: z'", "'end module m'", "\"contains\"", "'call sub(1)'", "'Mixed CASE Text; CALL Sub(X)'", "'a,b'", "\"(a,i0,';',a)\""]
 
 
 def literal_shard(args):
